@@ -16,7 +16,7 @@ RULE = ("ThompsonSampling alone and under Radius, KNearest, LSHNearest, Clusters
 ASSUMPTIONS = [
     "the twin receives the converted rewards as Python ints; Beta parameters are compared through the draws they "
     "produce from the same seed",
-    "n_jobs = 1",
+    "n_jobs in {1, 2, 3, -1} with the threading backend (TreeBandit kept at 1: finding D7 of C05)",
 ]
 NT_FLOOR = 0.3
 
@@ -59,8 +59,9 @@ def plan_st(draw, tier, ctx=None):
     npd = draw(gen.np_st([npn], arms, prob_ok=False, defaults_ok=True)) if npn else None
     late = draw(st.integers(0, 3)) == 0      # no binarizer at construction: the first one arrives with add_arm
     lp = ["ThompsonSampling", {} if late else {"binarizer": draw_binarizer(draw, arms, npn, ctx, gen.POOLS[kind])}]
-    cfg = {"arms": arms, "lp": lp, "np": npd, "seed": draw(st.integers(0, 2 ** 20)), "n_jobs": 1, "backend": None,
-           "arm_kind": kind}
+    nj = 1 if npn == "TreeBandit" else draw(st.sampled_from([1, 1, 1, 2, 3, -1]))
+    cfg = {"arms": arms, "lp": lp, "np": npd, "seed": draw(st.integers(0, 2 ** 20)), "n_jobs": nj,
+           "backend": "threading" if nj != 1 else None, "arm_kind": kind}
     fam = draw(st.sampled_from(["S", "Sint", "B"]))
     h = gen.History(draw, cfg, reward_family="B" if late else fam,
                     grid=draw(st.sampled_from(["int", "small"])), max_rows=8)
